@@ -166,7 +166,33 @@ func main() {
 			os.RemoveAll(flScratch)
 			os.Exit(2)
 		}
-		ok, got := rp(&rf)
+		limit := 150 * time.Second
+		if rf.Tier == "thorough" {
+			limit = 600 * time.Second
+		}
+		type rres struct {
+			ok  bool
+			got string
+		}
+		rc := make(chan rres, 1)
+		go func() {
+			ok, got := rp(&rf)
+			rc <- rres{ok, got}
+		}()
+		var ok bool
+		var got string
+		select {
+		case r := <-rc:
+			ok, got = r.ok, r.got
+		case <-time.After(limit):
+			buf := make([]byte, 1<<20)
+			n := runtime.Stack(buf, true)
+			os.MkdirAll("/verif/.cache/logs", 0755)
+			hf := fmt.Sprintf("/verif/.cache/logs/hang-replay-%s-%d.txt", rf.Property, rf.Seed)
+			os.WriteFile(hf, buf[:n], 0644)
+			ok = rf.Violation.Class == "hang"
+			got = "hang (goroutine dump in " + hf + ")"
+		}
 		emit("REPLAY", map[string]any{"reproduced": ok, "want": rf.Violation.Key(), "got": got})
 		os.RemoveAll(flScratch)
 		if ok {
@@ -186,9 +212,9 @@ func main() {
 	var curRun, curStart int64
 	var curSeed uint64
 	go func() {
-		limit := int64(150)
+		limit := int64(45)
 		if flTier == "thorough" {
-			limit = 600
+			limit = 300
 		}
 		for {
 			time.Sleep(2 * time.Second)
@@ -203,7 +229,10 @@ func main() {
 				}
 				rep := RunReport{Driver: drv, Run: int(atomic.LoadInt64(&curRun)), Seed: curSeed, Outcome: "violation", Sig: "hang", Nontrivial: true}
 				v := Violation{Property: flProp, Class: "hang", Site: site, Detail: fmt.Sprintf("run did not finish within %d s; main goroutine in %s", limit, site)}
-				rf := ReplayFile{Property: flProp, Driver: drv, Seed: curSeed, Tier: flTier, Violation: v, Note: "hang: replay by seed; stack: " + firstLines(stack, 60)}
+				os.MkdirAll("/verif/.cache/logs", 0755)
+				hf := fmt.Sprintf("/verif/.cache/logs/hang-%s-%d.txt", flProp, curSeed)
+				os.WriteFile(hf, []byte(stack), 0644)
+				rf := ReplayFile{Property: flProp, Driver: drv, Seed: curSeed, Tier: flTier, Violation: v, Note: "hang: full goroutine dump in " + hf + "; head: " + firstLines(stack, 40)}
 				if liveCfg != nil {
 					rf.Cfg = mustJSON(liveCfg)
 				}
@@ -211,6 +240,7 @@ func main() {
 					b, _ := marshalOps(*liveOps)
 					rf.Ops = b
 					rf.OpsCount = len(*liveOps)
+					rf.Violation.Features = opFeatures(*liveOps)
 				}
 				rep.Viol = []ReplayFile{rf}
 				emit("RUN", rep)
